@@ -269,10 +269,11 @@ def r2_token_typing(chk: Check):
             return "None"
         return None
 
-    cases = [({"is_state": True, "is_name": False}, {"info.state.name if info.state else None"}), ({"is_state": False, "is_name": True}, {"str(info.path.parent.name)"}),
-             ({"is_state": False, "is_name": False}, {"info.tags.get(self.varname, None)", "info.tags.get(self.varname)"})]
+    cases = [({"is_state": True, "is_name": False, "has_state": True}, {"info.state.name"}), ({"is_state": True, "is_name": False, "has_state": False}, {"None"}),
+             ({"is_state": False, "is_name": True, "has_state": None}, {"str(info.path.parent.name)"}),
+             ({"is_state": False, "is_name": False, "has_state": None}, {"info.tags.get(self.varname, None)", "info.tags.get(self.varname)"})]
     for sc, want in cases:
-        outs = walk_table(g, g.entry, classify, dict(sc, has_state=None), lambda n: [], stop)
+        outs = walk_table(g, g.entry, classify, dict(sc), lambda n: [], stop)
         ends = {o.end for o in outs}
         unk = [u[0] for o in outs for u in o.unknown if u[2] is None]
         chk.require(ends <= want and ends and not unk, f"cli.filter:VarExpr.get:{sc}", f"VarExpr.get under {sc} returns {sorted(ends)}{' depending on ' + str(unk) if unk else ''}; expected {sorted(want)} "
